@@ -7,7 +7,7 @@ id="$1"; prop="$2"; out="$3"; shift 3
 cd /verif
 mkdir -p seeded/$id
 cp $out/patch.diff seeded/$id/patch.diff
-for f in demo.cc build.sh run.sh notes.md; do [ -f $out/$f ] && cp $out/$f seeded/$id/; done
+for f in demo.cc build.sh run.sh notes.md pipestream.hh; do [ -f $out/$f ] && cp $out/$f seeded/$id/; done
 rm -rf /tmp/seedtrees/$id; mkdir -p /tmp/seedtrees/$id/pristine /tmp/seedtrees/$id/mut
 git -C /repo archive HEAD | tar -x -C /tmp/seedtrees/$id/pristine
 git -C /repo archive HEAD | tar -x -C /tmp/seedtrees/$id/mut
